@@ -193,6 +193,9 @@ pub fn main(spec_path: &str) {
     let mut paste = true;
     let mut signals = false;
     let mut stdout_full = false;
+    let mut tab_stop: u8 = 8;
+    let mut indent_size: u8 = 2;
+    let mut prompt_limit: usize = 100;
     let mut max_hist = 100usize;
     let mut printer = false;
     let mut pause = false;
@@ -243,6 +246,9 @@ pub fn main(spec_path: &str) {
             "printers_late" => printers_late = t[1] == "1",
             "linger" => linger = t[1] == "1",
             "stdout_full" => stdout_full = t[1] == "1",
+            "tab_stop" => tab_stop = t[1].parse().unwrap(),
+            "indent_size" => indent_size = t[1].parse().unwrap(),
+            "prompt_limit" => prompt_limit = t[1].parse().unwrap(),
             "bind" => binds.push((parse_keys(t[1]), parse_cmd(&t[2..]))),
             // an SQLite history at this path: `history` lines are entered by an earlier session (the database is then
             // closed and reopened), `history2` lines by the session the reads run in
@@ -261,6 +267,9 @@ pub fn main(spec_path: &str) {
         }
     }
     let config = Config::builder()
+        .tab_stop(tab_stop)
+        .indent_size(indent_size)
+        .completion_prompt_limit(prompt_limit)
         .edit_mode(mode)
         .completion_type(completion)
         .keyseq_timeout(timeout)
